@@ -541,19 +541,42 @@ class Spy(Interpretation):
         return self.base.interpret(cls, *args)
 
 
+class _BaseProbe(Interpretation):
+    """Delegates to the base interpretation and tells the innermost pending Memoize request that the base
+    was consulted for it (= cache miss), without assuming anything about the shape of the cache key."""
+
+    def __init__(self, base, frames):
+        super().__init__("probe")
+        self.base = base
+        self.frames = frames
+
+    @property
+    def is_total(self):
+        return self.base.is_total
+
+    def interpret(self, cls, *args):
+        if self.frames:
+            self.frames[-1][0] = True
+        return self.base.interpret(cls, *args)
+
+
 class LoggedMemoize(Memoize):
     """Memoize that records every request it answers (including the nested ones issued by the base
     interpretation's rules and by the FUNSOR_TYPECHECK pass), in completion order."""
 
     def __init__(self, base):
-        super().__init__(base)
+        self.frames = []
+        super().__init__(_BaseProbe(base, self.frames))
         self.events = []
 
     def interpret(self, cls, *args):
-        key = self.make_hash_key(cls, *args)
-        hit = self.cache.get(key) is not None
-        r = super().interpret(cls, *args)
-        self.events.append((cls, args, hit, r))
+        frame = [False]
+        self.frames.append(frame)
+        try:
+            r = super().interpret(cls, *args)
+        finally:
+            self.frames.pop()
+        self.events.append((cls, args, not frame[0], r))
         return r
 
 
@@ -640,7 +663,8 @@ def memo_history(rng, ctx):
     cls_ids, key_ids = {}, {}
     reqs = []
     for cls, args, hit, r in events:
-        reqs.append([cls_ids.setdefault(cls, len(cls_ids)), _arg_key_ids(args, key_ids)])
+        ocls = getattr(cls, "__origin__", None) or cls
+        reqs.append([cls_ids.setdefault(ocls, len(cls_ids)), _arg_key_ids(args, key_ids)])
     results = [e[3] for e in events]
     miss = [not e[2] for e in events]
     obj = [next(j for j in range(i + 1) if results[j] is r) for i, r in enumerate(results)]
